@@ -26,9 +26,25 @@ fn main() {
                     Message::MsgNotSupported(t) => ("MsgNotSupported", t.message_number as i64),
                     _ => ("Typed", m.number().map(|x| x as i64).unwrap_or(-1)),
                 };
-                println!("{} {} {}", class, n, digest(&format!("{:?}", m)));
+                // fourth column (used by C01): does this build's encoder reproduce the frame from the decoded message?
+                let rt = if class == "Typed" {
+                    let mut b = MessageBuilder::new();
+                    match b.build_message(&m) {
+                        Ok(f) => {
+                            if f == mf.frame_data() {
+                                "same"
+                            } else {
+                                "diff"
+                            }
+                        }
+                        Err(_) => "err",
+                    }
+                } else {
+                    "-"
+                };
+                println!("{} {} {} {}", class, n, digest(&format!("{:?}", m)), rt);
             }
-            _ => println!("NoFrame -1 -"),
+            _ => println!("NoFrame -1 - -"),
         }
     }
 }
